@@ -19,11 +19,19 @@ def child_main(job, ask):
                   count_lines=job.get("count_lines", False), record_args=job.get("record_args", False))
     steps = []
     cfg = None
+    gen_error = None
     if mode == "generate":
         gen = Generator(job["seed"], job["batch"], job.get("tier", "quick"), job)
         cfg = gen.describe_config()
         while len(steps) < MAX_STEPS:
-            st = gen.next(ex)
+            try:
+                st = gen.next(ex)
+            except Exception:
+                # a bug in the workload generator ends this history early; everything executed so far has been
+                # judged in full, so nothing is lost but the rest of this run. Counted and shown in the evidence.
+                import traceback
+                gen_error = traceback.format_exc()[-1500:]
+                break
             if st is None:
                 break
             if gen.cfg.get("dt"):
@@ -45,6 +53,7 @@ def child_main(job, ask):
     judged_after = ex.stats.get("judged_after_adversarial_event", 0)
     cold_then_warm = _cold_and_warm(ex.events)
     report = {
+        "generator_error": gen_error,
         "script_note": getattr(gen, "script_note", None) if mode == "generate" else None,
         "seed": job.get("seed"), "batch": job.get("batch"), "config": cfg,
         "steps": steps, "events": ex.events if job.get("want_events", True) else None,
